@@ -126,6 +126,8 @@ func checkC05(ctx *Ctx, r *Report) {
 	c05SixthRound(ctx, r)
 	c05SeventhRound(ctx, r)
 	c05RemovedNamesComparedWithPackage(ctx, r)
+	c05BothUnionHintsFollowed(ctx, r)
+	c05OpenAPIExternalPackagesNamed(ctx, r)
 	c18HintedBranchesVisited(ctx, r)
 	c18SpreadFieldsCopied(ctx, r) // types shared by duplicates are renamed once through each: PA -> PPA, a dangling reference
 	c07ObjectSetsKeyedByIdentity(ctx, r)
@@ -2131,7 +2133,7 @@ func c05FourthRound(ctx *Ctx, r *Report) {
 			found := false
 			ast.Inspect(fd.Body, func(m ast.Node) bool {
 				if id, ok := m.(*ast.Ident); ok {
-					if c, ok := info.Uses[id].(*types.Const); ok && c.Name() == "HintDiscriminatedDisjunctionOfRefs" {
+					if namesRefsHint(ctx, info.Uses[id]) {
 						found = true
 					}
 				}
@@ -2640,7 +2642,7 @@ func c05SixthRound(ctx *Ctx, r *Report) {
 			ok := false
 			ast.Inspect(fd.Body, func(m ast.Node) bool {
 				if id, isID := m.(*ast.Ident); isID {
-					if c, isConst := info.Uses[id].(*types.Const); isConst && c.Name() == "HintDiscriminatedDisjunctionOfRefs" {
+					if namesRefsHint(ctx, info.Uses[id]) {
 						ok = true
 					}
 				}
@@ -2934,4 +2936,122 @@ func c05RemovedNamesComparedWithPackage(ctx *Ctx, r *Report) {
 	}
 	r.Count("handlers of RemoveIntersections looking referred names up", n)
 	r.Floor("handlers of RemoveIntersections looking referred names up", 3)
+}
+
+// namesRefsHint: the object is the constant HintDiscriminatedDisjunctionOfRefs, or a package-level variable whose
+// initialiser lists it (`var disjunctionHints = []string{ast.HintDiscriminatedDisjunctionOfRefs, …}`: a handler that
+// ranges over that list reads the hint).
+func namesRefsHint(ctx *Ctx, obj types.Object) bool {
+	return namesHint(ctx, obj, "HintDiscriminatedDisjunctionOfRefs")
+}
+
+func namesHint(ctx *Ctx, obj types.Object, hint string) bool {
+	switch o := obj.(type) {
+	case *types.Const:
+		return o.Name() == hint
+	case *types.Var:
+		if o.Pkg() == nil || o.Parent() != o.Pkg().Scope() {
+			return false
+		}
+		for _, p := range ctx.Pkgs {
+			if p.Types != o.Pkg() {
+				continue
+			}
+			found := false
+			for _, f := range p.Syntax {
+				ast.Inspect(f, func(m ast.Node) bool {
+					vs, ok := m.(*ast.ValueSpec)
+					if !ok {
+						return true
+					}
+					for i, name := range vs.Names {
+						if p.TypesInfo.Defs[name] != obj || i >= len(vs.Values) {
+							continue
+						}
+						ast.Inspect(vs.Values[i], func(q ast.Node) bool {
+							if id, ok := q.(*ast.Ident); ok {
+								if c, ok := p.TypesInfo.Uses[id].(*types.Const); ok && c.Name() == hint {
+									found = true
+								}
+							}
+							return true
+						})
+					}
+					return true
+				})
+			}
+			return found
+		}
+	}
+	return false
+}
+
+// c05BothUnionHintsFollowed: DisjunctionToType keeps the union a struct was generated from under one of two hints
+// (disjunction_of_refs, disjunction_of_scalars); the branches kept there are types like any other — `[]demo.Variable |
+// string`. A handler of the compiler passes that reads one of the two hints to rewrite what it holds reads the other one
+// too.
+func c05BothUnionHintsFollowed(ctx *Ctx, r *Report) {
+	n := 0
+	ctx.AllFuncDecls(func(p *packages.Package, fd *ast.FuncDecl, obj *types.Func) {
+		if fd.Body == nil || fd.Recv == nil || !strings.HasSuffix(p.PkgPath, "/internal/ast/compiler") {
+			return
+		}
+		info := p.TypesInfo
+		refs, scalars, produces := false, false, false
+		ast.Inspect(fd.Body, func(m ast.Node) bool {
+			switch x := m.(type) {
+			case *ast.Ident:
+				if namesHint(ctx, info.Uses[x], "HintDiscriminatedDisjunctionOfRefs") {
+					refs = true
+				}
+				if namesHint(ctx, info.Uses[x], "HintDisjunctionOfScalars") {
+					scalars = true
+				}
+			case *ast.CallExpr:
+				// the pass that creates the struct sets one hint or the other
+				if f := callee(info, x); f != nil && f.Name() == "NewObject" {
+					produces = true
+				}
+			}
+			return true
+		})
+		if !refs && !scalars || produces {
+			return
+		}
+		n++
+		r.Check(refs && scalars, "traverse/both-union-hints-followed", ctx.FuncName(obj)+" rewrites the union kept in the hints of a struct", fd.Pos(), "under both hints (disjunction_of_refs, disjunction_of_scalars)",
+			ctx.FuncName(obj)+" looks at one of the two hints under which a struct generated from a union keeps that union: `Root: {v: [...#Variable] | string}` keeps `[]demo.Variable | string` under disjunction_of_scalars — after the Java chain removed (or a later pass renamed / prefixed) Variable, the hint still refers to demo.Variable, which no longer exists")
+	})
+	r.Count("handlers rewriting the union kept in hints", n)
+	r.Floor("handlers rewriting the union kept in hints", 4)
+}
+
+// c05OpenAPIExternalPackagesNamed (finding): the package of a reference into another OpenAPI document is what a regular
+// expression leaves of the document part — `./common.yaml#/…` gives the package "./common", `./refs/refs.json` gives
+// "./refs/refs" — while the input of that document is loaded under the base name of its file. The name has to go through
+// the function that names the package of an input (or path.Base).
+func c05OpenAPIExternalPackagesNamed(ctx *Ctx, r *Report) {
+	p := ctx.Pkg("internal/openapi")
+	if p == nil {
+		r.Undecided("anchor lost: internal/openapi")
+		return
+	}
+	fd := c12Method(p, "getRefName")
+	if fd == nil {
+		r.Undecided("anchor lost: openapi.generator.getRefName")
+		return
+	}
+	info := p.TypesInfo
+	named := false
+	ast.Inspect(fd.Body, func(m ast.Node) bool {
+		if c, ok := m.(*ast.CallExpr); ok {
+			if f := callee(info, c); f != nil && (f.Name() == "Base" || strings.Contains(strings.ToLower(f.Name()), "packagefrom")) {
+				named = true
+			}
+		}
+		return true
+	})
+	r.Count("OpenAPI external reference namers", 1)
+	r.Check(named, "frontier/openapi-external-ref-packages-named", "openapi.getRefName names the package of a reference into another document", fd.Pos(), "after the base name of that document, as its own input is",
+		"the package is what a regular expression leaves of the document part: `$ref: './common.yaml#/components/schemas/Error'` gives ref \"./common\".Error, which names nothing among the loaded packages (the input common.yaml is package common; `common.yaml#/…` resolves) — `./refs/common.yaml`, `my-refs/common.yaml`, `file://…` give path-like package names no language can emit")
 }
